@@ -343,10 +343,10 @@ class Model:
             self.probe("operation_on_fiber_continuing_its_child")
         return c
 
-    def check_can_resume(self, c):
+    def check_can_resume(self, c, n):
         if c.status == ALIVE or c.status == OK or c.status in TERMINAL:
             if c.status != ALIVE:
-                self.pending_tag = "illegal-resume"
+                self.pending_tag = ("illegal-resume", n, c.id)
                 self.probe("resume_finished_refused")
             else:
                 self.probe("resume_alive_refused")
@@ -406,7 +406,7 @@ class Model:
             raise Sig(ERROR, ins["v"])
         elif op in ("resume", "cancel"):
             c = self.getfiber(ins["f"])
-            self.check_can_resume(c)
+            self.check_can_resume(c, n)
             mode = op
             if op == "cancel" and c.status != NEW:
                 self.probe("cancel_suspended_fiber")
